@@ -579,6 +579,8 @@ pub struct RunLoopsOut {
     pub stored_at_start: Vec<usize>,
     pub stored_at_end: Vec<usize>,
     pub views_at_end: Vec<u64>,
+    /// (view, index of the signer) of every LeaderProposal that any node handed to the network
+    pub proposals_routed: Vec<(u64, usize)>,
 }
 
 /// Starts one real node per entry of `nodes` (validator index, durable image) — `Config::run` over a
@@ -589,6 +591,19 @@ pub struct RunLoopsOut {
 /// Runs under the controlled scheduler with the choice sequence of `ch`.
 pub fn run_loops(ch: &core::Ch, w: &World, nodes: &[(usize, Local)], max_rounds: u32) -> RunLoopsOut {
     run_loops_with(ch, w, nodes, max_rounds, false, false).0
+}
+
+/// Like `run_loops`, but the network goes silent (drops everything) once `limit` proposals have been
+/// routed: with every validator present and a perfect network the system never becomes idle by itself.
+pub fn run_loops_until_proposals(ch: &core::Ch, w: &World, nodes: &[(usize, Local)], max_rounds: u32, limit: usize) -> RunLoopsOut {
+    PROPOSAL_LIMIT.with(|l| l.set(limit));
+    let r = run_loops_with(ch, w, nodes, max_rounds, false, false).0;
+    PROPOSAL_LIMIT.with(|l| l.set(usize::MAX));
+    r
+}
+
+thread_local! {
+    static PROPOSAL_LIMIT: std::cell::Cell<usize> = const { std::cell::Cell::new(usize::MAX) };
 }
 
 /// Good period in which the execution layer needs one and a half view timeouts to verify a payload
@@ -617,6 +632,9 @@ fn run_loops_with(ch: &core::Ch, w: &World, nodes: &[(usize, Local)], max_rounds
     let stored_at_start: Vec<usize> = engines.iter().map(|e| e.stored_blocks()).collect();
     let engines2 = engines.clone();
     let start2 = stored_at_start.clone();
+    let plog: Arc<Mutex<Vec<(u64, usize)>>> = Default::default();
+    let proposal_limit = PROPOSAL_LIMIT.with(|l| l.get());
+    let plog_out = plog.clone();
     let (ok, rounds, why, routed) = sched::run(ch, |idle| async move {
         let clock = ctx::ManualClock::new();
         let root = ctx::test_root(&clock);
@@ -641,6 +659,8 @@ fn run_loops_with(ch: &core::Ch, w: &World, nodes: &[(usize, Local)], max_rounds
             out_recv.push(r);
         }
         let routed = std::sync::atomic::AtomicU64::new(0);
+        let plog2 = plog.clone();
+        let plog2 = &plog2;
         let errors: Mutex<Vec<String>> = Mutex::new(vec![]);
         let (mgrs, in_send, routed, errors, engines2, start2, idle, clock, root) = (&mgrs, &in_send, &routed, &errors, &engines2, &start2, &idle, &clock, &root);
         let fut = async move {
@@ -665,7 +685,15 @@ fn run_loops_with(ch: &core::Ch, w: &World, nodes: &[(usize, Local)], max_rounds
                 for mut orecv in out_recv {
                     s.spawn_bg(async move {
                         while let Ok(m) = orecv.recv(ctx).await {
-                            routed.fetch_add(1, SeqCst);
+                            if plog2.lock().unwrap().len() >= proposal_limit {
+                                continue;
+                            }
+                            let k = routed.fetch_add(1, SeqCst);
+                            if std::env::var("VERIF_DEBUG_ROUTE").is_ok() && k < 200 { eprintln!("route #{k}: {}", crate::bftmsgs::describe(w, &m.message)); }
+                            if let validator::ConsensusMsg::V2(v2::ChonkyMsg::LeaderProposal(p)) = &m.message.msg {
+                                let signer = w.c.keys.iter().position(|k| k.public() == m.message.key).unwrap_or(usize::MAX);
+                                plog2.lock().unwrap().push((p.view().number.0, signer));
+                            }
                             for dst in in_send.iter() {
                                 let (ack, _ack_recv) = zksync_concurrency::oneshot::channel();
                                 dst.send(ConsensusReq { msg: m.message.clone(), ack });
@@ -723,5 +751,6 @@ fn run_loops_with(ch: &core::Ch, w: &World, nodes: &[(usize, Local)], max_rounds
         (ok, rounds, why, routed.load(SeqCst))
     });
     let locals = engines.iter().map(|e| e.durable_local()).collect();
-    (RunLoopsOut { ok, rounds, why, messages_routed: routed, stored_at_start, stored_at_end: engines.iter().map(|e| e.stored_blocks()).collect(), views_at_end: engines.iter().map(|e| e.durable_view()).collect() }, locals)
+    let proposals_routed = plog_out.lock().unwrap().clone();
+    (RunLoopsOut { ok, rounds, why, messages_routed: routed, stored_at_start, stored_at_end: engines.iter().map(|e| e.stored_blocks()).collect(), views_at_end: engines.iter().map(|e| e.durable_view()).collect(), proposals_routed }, locals)
 }
